@@ -50,8 +50,8 @@ int main(int argc, char** argv) {
 				else { for(L i = 0; i < qq; ++i) for(L j = 0; j < qq; ++j) { if(upper ? (j < i) : (j > i)) continue; double s = 0; for(L k = 0; k <= std::min(i, j); ++k) { double a = upper ? F[k][i] : F[i][k]; double b = upper ? F[k][j] : F[j][k]; s += a * b; } errF = std::max(errF, std::abs(s - S[std::size_t(i * n + j)])); }
 					if(errF > 50 * double(n) * 2.3e-16 * scale && !(err > 50 * double(n) * 2.3e-16 * scale)) violation(K + "returned-view-reconstruction", "the selected triangle of the RETURNED view does not reproduce the input (residual " + std::to_string(errF) + ") although the operated view does"); } }
 			bool other = true; for(L i = 0; i < n; ++i) for(L j = 0; j < n; ++j) if(upper ? (j < i) : (j > i)) other &= (A[i][j] == S[std::size_t(i * n + j)]); if(!other) violation(K + "other-triangle-modified", "the triangle that was not selected was modified");
-			for(L i = 0; i < n; ++i) for(L j = 0; j < n; ++j) A[i][j] = FILL; if(Rb.stray()) violation(K + "outside-view-written", "elements outside the operated view were overwritten"); count("computed");
-		} catch(assertion_failure const&) { count("rejected:assertion"); } catch(std::exception const&) { count("rejected:exception"); }
+			for(L i = 0; i < n; ++i) for(L j = 0; j < n; ++j) A[i][j] = FILL; if(Rb.stray()) violation(K + "outside-view-written", "elements outside the operated view were overwritten"); count("computed"); count(std::string("acc:potrf:") + MK[kind] + (upper ? ":upper" : ":lower") + ":computed");
+		} catch(assertion_failure const&) { count("rejected:assertion"); count(std::string("acc:potrf:") + MK[kind] + (upper ? ":upper" : ":lower") + ":rejected"); violation(K + "rejected", "potrf rejected (assertion) an operand of a kind it accepts: row-/column-major, contiguous or padded"); } catch(std::exception const& e) { count("rejected:exception"); count(std::string("acc:potrf:") + MK[kind] + (upper ? ":upper" : ":lower") + ":rejected"); violation(K + "rejected", std::string("potrf rejected an operand of a kind it accepts: ") + e.what()); }
 #elif C14_R == 2
 		L const m = g.in(1, MAXN), n = g.in(1, MAXN); int const kind = int(g.below(4));
 		std::vector<double> A0(std::size_t(m * n)); for(auto& e : A0) e = double(g.below(9)) - 4 + 0.25 * double(g.below(4));
@@ -67,8 +67,8 @@ int main(int argc, char** argv) {
 				for(L j = 0; j < q; ++j) { double d = 0; for(L i = 0; i < p; ++i) d += v[std::size_t(i)] * Rm[std::size_t(i * q + j)]; for(L i = 0; i < p; ++i) Rm[std::size_t(i * q + j)] -= tau[k2] * v[std::size_t(i)] * d; } }
 			double err = 0, scale = 1; for(auto e : A0) scale = std::max(scale, std::abs(e)); for(L i = 0; i < p; ++i) for(L j = 0; j < q; ++j) err = std::max(err, std::abs(Rm[std::size_t(i * q + j)] - A0[std::size_t(j * n + i)]));
 			if(err > 100 * double(m + n) * 2.3e-16 * scale) violation(K + "reconstruction", "Q*R differs from the input (read as LAPACK reads it) by " + std::to_string(err));
-			for(L i = 0; i < m; ++i) for(L j = 0; j < n; ++j) A[i][j] = FILL; if(Rb.stray()) violation(K + "outside-view-written", "elements outside the operated view were overwritten"); count("computed");
-		} catch(assertion_failure const&) { count("rejected:assertion"); } catch(std::exception const&) { count("rejected:exception"); }
+			for(L i = 0; i < m; ++i) for(L j = 0; j < n; ++j) A[i][j] = FILL; if(Rb.stray()) violation(K + "outside-view-written", "elements outside the operated view were overwritten"); count("computed"); count(std::string("acc:geqrf:") + MK[kind] + ":computed");
+		} catch(assertion_failure const&) { count("rejected:assertion"); count(std::string("acc:geqrf:") + MK[kind] + ":rejected"); if(kind < 2) violation(K + "rejected-row-major-input", "geqrf rejected (assertion) a row-major view, which the adaptor accepts for every size"); } catch(std::exception const& e) { count("rejected:exception"); count(std::string("acc:geqrf:") + MK[kind] + ":rejected"); info("C14:geqrf:exception-text", e.what()); if(kind < 2) violation(K + "rejected-row-major-input", std::string("geqrf rejected a row-major view, which the adaptor accepts for every size: ") + e.what()); }
 #else
 		L const m = g.in(1, MAXN), n = g.in(1, MAXN); int const kind = int(g.below(4)), ku = int(g.below(2)), kv = int(g.below(2));
 		std::vector<double> A0(std::size_t(m * n)); for(L i = 0; i < m; ++i) for(L j = 0; j < n; ++j) A0[std::size_t(i * n + j)] = double(g.below(7)) - 3 + (i == j ? 5.0 : 0.0);
@@ -81,8 +81,8 @@ int main(int argc, char** argv) {
 			if(err > 200 * double(m + n) * 2.3e-16 * scale) violation(K + "reconstruction", "U*diag(s)*VT differs from the input by " + std::to_string(err));
 			for(L k2 = 0; k2 < kk; ++k2) if(s[k2] < 0 || (k2 + 1 < kk && s[k2] < s[k2 + 1])) violation(K + "singular-values-order", "singular values are not non-negative and descending");
 			for(L i = 0; i < m; ++i) for(L j = 0; j < n; ++j) A[i][j] = FILL; for(L i = 0; i < m; ++i) for(L j = 0; j < m; ++j) U[i][j] = FILL; for(L i = 0; i < n; ++i) for(L j = 0; j < n; ++j) VT[i][j] = FILL;
-			if(Rb.stray() || Ru.stray() || Rv.stray()) violation(K + "outside-view-written", "elements outside the documented outputs were overwritten"); count("computed");
-		} catch(assertion_failure const&) { count("rejected:assertion"); } catch(std::exception const&) { count("rejected:exception"); }
+			if(Rb.stray() || Ru.stray() || Rv.stray()) violation(K + "outside-view-written", "elements outside the documented outputs were overwritten"); count("computed"); count(std::string("acc:gesvd:") + MK[kind] + "," + MK[ku] + "," + MK[kv] + ":computed");
+		} catch(assertion_failure const&) { count("rejected:assertion"); count(std::string("acc:gesvd:") + MK[kind] + "," + MK[ku] + "," + MK[kv] + ":rejected"); if(kind < 2) violation(K + "rejected-row-major-input", "gesvd rejected (assertion) row-major operands, which the adaptor accepts for every size"); } catch(std::exception const& e) { count("rejected:exception"); count(std::string("acc:gesvd:") + MK[kind] + "," + MK[ku] + "," + MK[kv] + ":rejected"); info("C14:gesvd:exception-text", e.what()); if(kind < 2) violation(K + "rejected-row-major-input", std::string("gesvd rejected row-major operands, which the adaptor accepts for every size: ") + e.what()); }
 #endif
 		st().assert_throws = false;
 	});
